@@ -38,7 +38,7 @@ var (
 	apkNames  = []string{"musl", "busybox", "zlib", "libcrypto3", "apk-tools"}
 	langNames = map[string][]string{
 		"python": {"requests", "urllib3", "flask", "jinja2"},
-		"nodejs": {"left-pad", "lodash", "express", "ms"},
+		"nodejs": {"left-pad", "lodash", "express", "ms", "ms-utils"},
 		"ruby":   {"rake", "rails", "rack"},
 		"java":   {"guava", "jackson-core", "log4j-core"},
 	}
